@@ -112,25 +112,30 @@ theorem skipXmlChars_spec {s : Stream} (hs : SOk txt s) :
 /-- scan up to one of two ASCII needles -/
 theorem advanceUntil2_spec {s : Stream} (hs : SOk txt s) (n1 n2 : UInt8) (h1 : n1 < 128) (h2 : n2 < 128) :
     RSpec (s.advanceUntil2 n1 n2) (fun p => Step txt s p.1 ∧ SpanOk txt p.2 ∧ p.2.off = s.pos ∧
-      Took s p.1 p.2.bytes) := by
+      Took s p.1 p.2.bytes ∧ ∀ b ∈ p.2.bytes, b ≠ n1 ∧ b ≠ n2) := by
   unfold Stream.advanceUntil2
   -- the scan consumes a prefix of the rest
   have key : ∀ (l : Bytes) (pos : Nat) (acc : Bytes) (f : UInt8 → Bool),
       ∃ run, (Stream.spanBytesAux f pos acc l).2 = acc.reverse ++ run ∧
-        Took ⟨pos, l⟩ (Stream.spanBytesAux f pos acc l).1 run := by
+        Took ⟨pos, l⟩ (Stream.spanBytesAux f pos acc l).1 run ∧ ∀ b ∈ run, f b = true := by
     intro l
     induction l with
-    | nil => intro pos acc f; exact ⟨[], by simp [Stream.spanBytesAux], Took.nil _⟩
+    | nil => intro pos acc f; exact ⟨[], by simp [Stream.spanBytesAux], Took.nil _, by simp⟩
     | cons b r ih =>
       intro pos acc f
       simp only [Stream.spanBytesAux]
       split
-      · obtain ⟨run, he, ht⟩ := ih (pos + 1) (b :: acc) f
-        refine ⟨b :: run, by rw [he]; simp, ?_⟩
-        have h1 : Took ⟨pos, b :: r⟩ ⟨pos + 1, r⟩ [b] := ⟨by simp, rfl, rfl, rfl⟩
-        exact Took.trans h1 ht
-      · exact ⟨[], by simp, Took.nil _⟩
-  obtain ⟨run, he, ht⟩ := key s.rest s.pos [] (fun b => b != n1 && b != n2)
+      · rename_i hfb
+        obtain ⟨run, he, ht, hall⟩ := ih (pos + 1) (b :: acc) f
+        refine ⟨b :: run, by rw [he]; simp, ?_, ?_⟩
+        · have h1 : Took ⟨pos, b :: r⟩ ⟨pos + 1, r⟩ [b] := ⟨by simp, rfl, rfl, rfl⟩
+          exact Took.trans h1 ht
+        · intro x hx
+          rcases List.mem_cons.mp hx with rfl | hx
+          · exact hfb
+          · exact hall x hx
+      · exact ⟨[], by simp, Took.nil _, by simp⟩
+  obtain ⟨run, he, ht, hall⟩ := key s.rest s.pos [] (fun b => b != n1 && b != n2)
   have hstep := spanBytes_stop_step (txt := txt) (fun b => b != n1 && b != n2)
     (by intro b hb
         simp only [Bool.and_eq_false_iff, bne_eq_false_iff_eq] at hb
@@ -144,7 +149,10 @@ theorem advanceUntil2_spec {s : Stream} (hs : SOk txt s) (n1 n2 : UInt8) (h1 : n
   simp only
   split
   · exact rspec_err _ _
-  · exact rspec_ok _ _ ⟨hstep, ht.spanOk hs, rfl, ht⟩
+  · refine rspec_ok _ _ ⟨hstep, ht.spanOk hs, rfl, ht, ?_⟩
+    intro b hb
+    have := hall b hb
+    simpa using this
 
 theorem skipNameTail_spec :
     ∀ (fuel : Nat) (s : Stream) (acc : Bytes), s.rest.length < fuel → SOk txt s →
